@@ -8,6 +8,7 @@ import (
 	"runtime"
 	"strconv"
 	"strings"
+	"time"
 
 	"github.com/pinealctx/neptune/queue/priq"
 	"github.com/pinealctx/neptune/queue/syncq"
@@ -17,6 +18,7 @@ import (
 	pq "github.com/pinealctx/neptune/syncx/pipe/q"
 
 	"nvharness/lib/c12facts"
+	"nvharness/lib/c12sched"
 	"nvharness/lib/corr"
 	"nvharness/lib/gofacts"
 	_ "nvharness/lib/quiet"
@@ -292,7 +294,7 @@ func (r *runner) blocking(fn func() string) string {
 		}
 		runtime.Gosched()
 	}
-	if err := r.s.Settle(); err != nil {
+	if err := c12sched.Settle(10 * time.Second); err != nil {
 		r.dead = "harness:" + err.Error()
 		return "harness-error"
 	}
@@ -300,7 +302,7 @@ func (r *runner) blocking(fn func() string) string {
 		return res
 	}
 	r.lq.release()
-	if err := r.s.Settle(); err != nil {
+	if err := c12sched.Settle(10 * time.Second); err != nil {
 		r.dead = "harness:" + err.Error()
 		return "harness-error"
 	}
